@@ -271,9 +271,10 @@ Finish == /\ mode = "run" /\ pc = Idle /\ used # {}
           /\ UNCHANGED <<active, stopPend, diskSess, diskPend, pmap, chan, held, psent, todo, pc, fail, fail0, inc, crashes, used, graced, g, viol, at, hits>>
 
 Durable == {s \in S : diskSess[s] # "none" \/ HasPendingStop(s)}
+StillDown == {s \in S : fail[<<"stop", s>>] > 0}     \* the server would refuse the next Stop of s
 
 Quiesce == /\ mode = "final" /\ pc = Idle /\ held = <<>> /\ psent = "none" /\ chan = <<>> /\ Pending(pmap) = {}
-           /\ Emit(<<[op |-> "quiesce", durable |-> SetToSeq(Durable)]>>)
+           /\ Emit(<<[op |-> "quiesce", durable |-> SetToSeq(Durable), down |-> SetToSeq(StillDown)]>>)
            /\ mode' = "done" /\ NoH
            /\ UNCHANGED <<active, stopPend, diskSess, diskPend, pmap, chan, held, psent, todo, pc, fail, fail0, inc, crashes, used, graced, at, hits>>
 
